@@ -264,7 +264,7 @@ def c15(tier, seed):
     for c, bmax in ((100, 100), (12, 1)):
         obs.append(Ob('scrub.md.c%d' % c, S, 'h_md', inject=[SCRUB_REGION], defs={'MD_C': c, 'MD_BMAX': bmax}, unwind=4, small_path=True, solver=KISSAT, timeout=900, mem=6, cost=10,
                       functions=sf('md'), note='divisor %d as at the call site, a symbolic 32-bit, b <= %d' % (c, bmax)))
-    return obs + scrubplan_obs() + [o for o in staterec_obs(tier) if o.name == 'state.i_record.info.roundtrip'] + [o for o in syncrd_obs() if o.name == 'scrub.data_reader']
+    return obs + scrubplan_obs() + [o for o in staterec_obs(tier) if o.name == 'state.i_record.info.roundtrip'] + [o for o in syncrd_obs() if o.name == 'scrub.data_reader'] + inforuns_obs()
 
 
 def crc_obs(tier):
@@ -1026,6 +1026,19 @@ def parityrec_obs():
             for lv, s0, s1 in ((1, 1, 1), (1, 2, 1), (2, 2, 1), (2, 1, 2))]
 
 
+INFO_WRITE = dict(region='info_write', file='cmdline/state.c', begin='/* write the info for each block */', end="sputc('N', f);", end_first_after=True, max_lines=70, expect_loops=2,
+                  proto='static void *region_info_write(struct snapraid_state *state, STREAM *f, block_off_t blockmax, time_t info_oldest, time_t info_now, void *context)',
+                  prologue='\tblock_off_t begin;', epilogue='\treturn 0;')
+INFO_READ = dict(region='info_read', file='cmdline/state.c', begin="} else if (c == 'i') {", end="} else if (c == 'h') {", end_first_after=True, max_lines=115, expect_loops=2,
+                 proto='static void region_info_read(struct snapraid_state *state, STREAM *f, const char *path, block_off_t blockmax)', prologue='\tint ret;', epilogue='\t(void)ret;')
+
+
+def inforuns_obs():
+    return [Ob('state.i_record.inforuns.roundtrip', 'harness/h_inforuns.c', 'h_inforuns', inject=[INFO_WRITE, INFO_READ], unwind=6, small_path=True, timeout=900, mem=8, cost=5, kind='bounded', bound='arrays of at most 3 stripes',
+               functions=["state_write_thread: region 'i' record, runs of equal info words (cmdline/state.c, extracted mechanically)", "state_read_content: branch of the 'i' record (extracted)"],
+               note='every info word per stripe (time, bad / rehash / just-synced marks, or none), every oldest <= now; info_get / info_set / fs_info_is_required by stub over a small array')]
+
+
 def fsempty_obs():
     return [Ob('elem.fs_is_empty', 'harness/h_fsempty.c', 'h_fs_is_empty', inject=[FS_IS_EMPTY], unwind=4, small_path=True, timeout=600, mem=6, cost=2,
                functions=['fs_is_empty + extent_disk_empty_compare_unlock (cmdline/elem.c, extracted verbatim)'],
@@ -1106,7 +1119,7 @@ def blockruns_obs():
 
 
 def c10(tier, seed):
-    return stream_obs(['h_rt32', 'h_rt64', 'h_rtle32', 'h_rtbs']) + staterec_obs(tier) + blockruns_obs() + frecord_obs() + header_obs() + maprec_obs() + holeruns_obs() + fsempty_obs() + linkrec_obs() + parityrec_obs()
+    return stream_obs(['h_rt32', 'h_rt64', 'h_rtle32', 'h_rtbs']) + staterec_obs(tier) + blockruns_obs() + frecord_obs() + header_obs() + maprec_obs() + holeruns_obs() + fsempty_obs() + linkrec_obs() + parityrec_obs() + inforuns_obs()
 
 
 PROPS = {
